@@ -15,6 +15,7 @@ HARNESS = os.path.join(VERIF, "harness")
 HQV = os.path.join(HARNESS, "target", "debug", "hqv")
 EVIDENCE = os.path.join(VERIF, "evidence")
 REPLAYS = os.path.join(VERIF, "replays")
+WORK = os.path.join(VERIF, "work")
 TLA_CP = "/opt/veriftools/tla/tla2tools.jar:/opt/veriftools/tla/CommunityModules-deps.jar"
 NCPU = os.cpu_count() or 8
 
